@@ -480,12 +480,12 @@ def Store.writeBackAnswer (H : Hash) (s : Store) (now : Int) (k : QKey) (answerS
 
 /-- why a failure may be private to one request. -/
 inductive Cause
-  | none | workLimit | attemptLimit | probeLimit | maxRecursion | canceled | deadline | other
+  | none | workLimit | attemptLimit | probeLimit | loadShed | maxRecursion | canceled | deadline | other
 deriving DecidableEq, Repr
 
 /-- `middleware.IsRequestLocalResolutionError`. -/
 def Cause.isRequestLocal : Cause → Bool
-  | .workLimit | .attemptLimit | .probeLimit | .maxRecursion | .canceled | .deadline => true
+  | .workLimit | .attemptLimit | .probeLimit | .loadShed | .maxRecursion | .canceled | .deadline => true
   | .none | .other => false
 
 /-- what the admission filters read from the request context. -/
